@@ -649,6 +649,7 @@ fn corpus() -> Vec<(&'static str, bool)> {
         ("SELECT x FROM a ORDER BY x DESC NULLS FIRST LIMIT 3 OFFSET 1", true),
         ("SELECT x FROM a LIMIT 0", true),
         ("SELECT x FROM a ORDER BY x LIMIT 3 OFFSET 0", true),
+        ("SELECT x FROM a ORDER BY x OFFSET 2", true),
         ("((SELECT x AS r0, y AS r1 FROM a) INTERSECT ALL (SELECT x AS r0, z AS r1 FROM b)) UNION (SELECT x AS r0, y AS r1 FROM a WHERE FALSE)", true),
         ("SELECT CASE WHEN x > 1 THEN 'big' WHEN x IS NULL THEN NULL ELSE 'small' END, CAST(x AS INT), TRY_CAST(s AS DOUBLE), x BETWEEN 1 AND 2, s LIKE 'a%' ESCAPE '!', s ILIKE '_b', s SIMILAR TO 'a+', -x, NOT b FROM a", true),
         ("SELECT x IN (1, 2, NULL), x NOT IN (3), b IS TRUE, b IS NOT FALSE, b IS UNKNOWN, s || 'z', x & 3, x | 1, x ^ 2, x << 1, x >> 1, x % 2, x / 2 FROM a", true),
